@@ -127,6 +127,27 @@ func TestC20(t *testing.T) {
 			}
 		}
 		app := m.H.App
+		// searching must not modify the message: flatten the tree (pointers) before
+		var flatBefore []*diam.AVP
+		var flatten func(avps []*diam.AVP, out *[]*diam.AVP)
+		flatten = func(avps []*diam.AVP, out *[]*diam.AVP) {
+			for _, a := range avps {
+				*out = append(*out, a)
+				if g, ok := a.Data.(*diam.GroupedAVP); ok {
+					*out = append(*out, nil)
+					flatten(g.AVP, out)
+					*out = append(*out, nil)
+				}
+			}
+		}
+		flatten(dm.AVP, &flatBefore)
+		defer func() {
+			var flatAfter []*diam.AVP
+			flatten(dm.AVP, &flatAfter)
+			if !c.Failed() && !samePtrs(flatBefore, flatAfter) {
+				c.Fail(ev.Sig{"op": "search-modified-the-message"}, nil, nil, "after the queries the message's AVP tree is no longer the one that was built (%d entries before, %d after, first difference at %d); tree {%s}", len(flatBefore), len(flatAfter), firstPtrDiff(flatBefore, flatAfter), refcodec.Describe(m.Nodes))
+			}
+		}()
 		// collect codes present
 		var present []*refcodec.Node
 		maxDepth := 0
@@ -313,4 +334,13 @@ func TestC20(t *testing.T) {
 			}
 		}
 	})
+}
+
+func firstPtrDiff(a, b []*diam.AVP) int {
+	for i := 0; i < len(a) && i < len(b); i++ {
+		if a[i] != b[i] {
+			return i
+		}
+	}
+	return min(len(a), len(b))
 }
